@@ -237,7 +237,7 @@ func cacheSitesRule(c *Ctx, rule string) {
 		return
 	}
 	isEval := func(fn *ssa.Function) bool {
-		if fn == nil || fn.Signature.Recv() == nil || fn.Name() != "eval" {
+		if fn == nil || fn.Signature.Recv() == nil || fn.Name() != evalName {
 			return false
 		}
 		n := namedOf(fn.Signature.Recv().Type())
@@ -479,8 +479,8 @@ func keyLeafRule(c *Ctx, rule string) {
 		if !ok {
 			continue
 		}
-		fn := c.a.methodOf(T, "cacheKey")
-		name := "(*" + T.Obj().Name() + ").cacheKey"
+		fn := c.a.methodOf(T, c.a.KeyName)
+		name := "(*" + T.Obj().Name() + ")." + nameOr(c.a.KeyName, "cacheKey")
 		if fn == nil {
 			c.r.undecided(rule, name, "method not found")
 			continue
@@ -575,7 +575,7 @@ func colCheckRule(c *Ctx, rule string) {
 		f := path(lk.Index).lastField()
 		return f != nil && c.w.ownerOf(f) == eqT
 	}
-	ev := c.a.methodOf(eqT, "eval")
+	ev := c.a.methodOf(eqT, c.a.EvalName) // (unexported interface method: resolved name, rules_ag10.go)
 	if ev != nil {
 		has := false
 		allInstrs(ev, func(i ssa.Instruction) {
@@ -852,7 +852,7 @@ func driverMapPairingRule(c *Ctx, rule string) {
 	for i := 0; i < st.NumFields(); i++ {
 		f := st.Field(i)
 		m, isMap := f.Type().Underlying().(*types.Map)
-		if !isMap || typeIs(m.Elem(), pkgDriver, "fileConn") {
+		if !isMap || namedOf(m.Elem()) == c.a.FileConnT { // (the file connection type: by shape, rules_ag10.go)
 			continue
 		}
 		inserted := false
@@ -981,7 +981,7 @@ func evalNilRule(c *Ctx, rule string) {
 	}
 	n := 0
 	for _, T := range c.a.ExprImpls {
-		ev := c.a.methodOf(T, "eval")
+		ev := c.a.methodOf(T, c.a.EvalName) // (unexported interface method: resolved name, rules_ag10.go)
 		if ev == nil {
 			continue
 		}
